@@ -109,18 +109,113 @@ fn check_one(spec: &FileSpec, acc: &mut Acc) {
     }
 }
 
+/// The files a sorter writes itself (spilled chunks and merged chunks) with a configured block
+/// size obey the same rule.
+#[derive(Clone, Debug, serde::Serialize, serde::Deserialize)]
+pub struct ChunkCase {
+    pub cfg: crate::sorter_util::SorterCfg,
+    pub n: usize,
+    pub klen: usize,
+    pub vlen: usize,
+}
+
+pub fn check_chunks(c: &ChunkCase) -> Result<(u64, u64, usize), String> {
+    let inserts: Vec<vlib::fmt::Entry> = (0..c.n)
+        .map(|i| {
+            let mut k = ((i * 7919 % 100_000) as u32).to_be_bytes().to_vec();
+            k.resize(c.klen.max(4), 0x6B);
+            (k, crate::sorter_util::piece(i, c.vlen))
+        })
+        .collect();
+    let files = crate::sorter_util::sorter_chunk_files(&c.cfg, &inserts)?;
+    let b_eff = std::cmp::max(1024, c.cfg.block_size.unwrap_or(8192));
+    let (mut checked, mut full) = (0, 0);
+    for (j, f) in files.iter().enumerate() {
+        let layout = decode_file(f, None).map_err(|e| format!("chunk #{j} of {}: {e}", files.len()))?;
+        let (c1, f1) = size_rule(&layout, b_eff).map_err(|e| format!("chunk #{j} of {} (configured block_size {:?}): {e}", files.len(), c.cfg.block_size))?;
+        checked += c1;
+        full += f1;
+    }
+    Ok((checked, full, files.len()))
+}
+
+fn chunk_cases(tier: Tier) -> Vec<ChunkCase> {
+    let mut v = Vec::new();
+    for b in [Some(1024usize), Some(2048), Some(4096), Some(100), None] {
+        for levels in [None, Some(0u8), Some(2)] {
+            for chunks in [1usize, 2, 25] {
+                for realloc in [true, false] {
+                    let mut cfg = crate::sorter_util::SorterCfg::scaled(1 << 14, 1 << 10, realloc, chunks, false);
+                    cfg.block_size = b;
+                    cfg.index_levels = levels;
+                    for (n, klen, vlen) in [(600usize, 6usize, 100usize), (200, 400, 8)] {
+                        if tier == Tier::Quick && (levels == Some(0) || (b == Some(4096) && !realloc)) {
+                            continue;
+                        }
+                        v.push(ChunkCase { cfg: cfg.clone(), n, klen, vlen });
+                    }
+                }
+            }
+        }
+    }
+    v
+}
+
 pub fn run(tier: Tier) -> i32 {
     let mut rep = Report::new("C15", tier, "model_checking");
     let pop = Population::new(tier);
     let deadline = Deadline::after(Duration::from_secs(tier.pick(50, 3000)));
-    let acc = par_for(pop.len(), 32, &deadline, |i, acc| check_one(&pop.get(i), acc));
+    let mut acc = par_for(pop.len(), 32, &deadline, |i, acc| check_one(&pop.get(i), acc));
+    let cases = chunk_cases(tier);
+    let a2 = par_for(cases.len(), 1, &deadline, |i, acc| {
+        let c = &cases[i];
+        acc.evaluations += 1;
+        acc.states += 1;
+        match check_chunks(c) {
+            Ok((checked, full, files)) => {
+                acc.transitions += checked;
+                acc.count("sorter_chunk_blocks_checked", checked);
+                acc.count("sorter_chunk_files", files as u64);
+                if full > 0 {
+                    acc.nontrivial += 1;
+                }
+                acc.hist(if files >= 2 { "sorter_several_chunk_files_ok" } else { "sorter_single_chunk_file_ok" });
+                if files >= 2 && full > 4 {
+                    acc.sample(|| json!({"sorter_case": c, "chunk_files": files, "blocks_checked": checked, "blocks_cut_at_size": full}));
+                }
+            }
+            Err(msg) => {
+                acc.hist("violation_sorter_chunk");
+                acc.violation(Violation {
+                    signature: format!("chunk;{}", serde_json::to_string(c).unwrap()),
+                    summary: format!("C15: sorter {}: {msg}", serde_json::to_string(c).unwrap()),
+                    case: json!({"kind": "sorter_chunks", "case": c}),
+                });
+            }
+        }
+    });
+    acc.merge(a2);
     rep.acc = acc;
-    rep.set("rule", json!("E2: every file of the C01 population (all 8 block-size settings incl. 0, 1, 1023 -> clamp to 1024) is decoded by the independent decoder; for every data block and every index block >= 2 levels below the root: uncompressed size without its final entry (and without the offset slot that entry opened) < B_eff = max(1024, B), and every such block except the last emitted of its level has size >= B_eff; states = files, transitions = blocks checked; distinct_nontrivial = files containing at least one block that was cut at the size threshold"));
+    rep.set("rule", json!("E2: every file of the C01 population (all 8 block-size settings incl. 0, 1, 1023 -> clamp to 1024) is decoded by the independent decoder; for every data block and every index block >= 2 levels below the root: uncompressed size without its final entry (and without the offset slot that entry opened) < B_eff = max(1024, B), and every such block except the last emitted of its level has size >= B_eff; the same rule is applied to the chunk files a Sorter writes itself (spilled and merged chunks, obtained through into_reader_cursors over CursorVec chunks) for the configured block_size; states = files, transitions = blocks checked; distinct_nontrivial = files containing at least one block that was cut at the size threshold"));
     rep.set("bound", pop.describe());
     rep.finish()
 }
 
 pub fn replay(case: &serde_json::Value) -> i32 {
+    if case["kind"] == "sorter_chunks" {
+        let c: ChunkCase = serde_json::from_value(case["case"].clone()).expect("bad replay: case");
+        return match check_chunks(&c) {
+            Ok((c, f, n)) => {
+                println!("replay: {n} chunk files, {c} blocks obey the size rule ({f} cut at the threshold)");
+                0
+            }
+            Err(e) => {
+                println!("{e}");
+                println!("VIOLATION property=C15 replay=(replayed)");
+                1
+            }
+        };
+    }
     let spec: FileSpec = serde_json::from_value(case["file"].clone()).expect("bad replay: file");
     match check_spec(&spec) {
         Ok((c, f)) => {
